@@ -173,4 +173,24 @@ theorem run_spans (m : Nat) (det : Detect) : ∀ (cs : List (List Bool)) (st : S
     · simp [spans, h2, h3, g2, h4]
     · rw [g3, h4]; simp only [total]; omega
 
+theorem edges_pad (i0 : Bool) (s0in : Int) (m : Nat) (x : List Bool) :
+    edgesOf i0 (s0in - m) (List.replicate m i0 ++ x) = edgesOf i0 s0in x := by
+  rw [edgesOf_append, (edgesOf_replicate i0 m _).1, (edgesOf_replicate i0 m 0).2]
+  simp only [List.nil_append, List.length_replicate]
+  have : s0in - (m : Int) + (m : Int) = s0in := by omega
+  rw [this]
+
+theorem spans_length : ∀ (cs : List (List Bool)) (s : Int), (spans s cs).length = cs.length := by
+  intro cs
+  induction cs with
+  | nil => intro _; rfl
+  | cons c cs ih => intro s; simp [spans, ih]
+
+theorem adjacent_false_of_gap (b1 b2 : Block) (post : List Block) (h : b1.stop ≠ b2.start) :
+    ∀ (pre : List Block) (s0 : Int), adjacent s0 (pre ++ b1 :: b2 :: post) = false := by
+  intro pre
+  induction pre with
+  | nil => intro s0; simp [adjacent, Ne.symm h]
+  | cons p pre ih => intro s0; simp [adjacent, ih]
+
 end Psi.Edges
